@@ -176,15 +176,20 @@ def run(E: Engine, rep: Report, tier: str) -> dict:
 
     # ---------------------------------------------------------------- MAP
     br = E.fn("pulser.register.mappable_reg.MappableRegister.build_register")
+    declared = (sym.Pattern("self._qubit_ids").term, sym.Pattern("self.qubit_ids").term)
     ok = False
-    for n in own_nodes(br):
-        if isinstance(n, ast.DictComp) and norm(n.generators[0].iter) in ("self._qubit_ids", "self.qubit_ids"):
-            ok = True
-    rep.check(ok, "MAP", "MappableRegister.build_register|declared-order", "qubits placed in declared order", "build_register no longer iterates the declared qubit ids", E.where(br))
+    for l in S(E, br).calls("define_register"):
+        comps = [t for t in sym.subterms(l.value) if t[0] == "comp" and len(t[3]) == 1]
+        ok = bool(comps) and all(t[3][0][0] in declared for t in comps)
+    rep.check(ok, "MAP", "MappableRegister.build_register|declared-order", "qubits placed in declared order", "build_register no longer iterates the declared qubit ids when selecting the traps / ids handed to define_register", E.where(br))
     cq = E.method(SEQ, "_check_qubits_give_ids")
-    rep.check("self._register.qubit_ids[int(index)]" in norm(cq.node), "MAP", "Sequence._check_qubits_give_ids|index-against-register-order", "indices resolve against register.qubit_ids", "index targeting no longer resolves against the register's qubit order", E.where(cq))
+    rq = S(E, cq).ret
+    ok = rq is not None and any(m_["Q_i"][0] == "elem" and unobj(m_["Q_i"][1]) == ("name", "qubits") for m_ in sym.find_all(rq, sym.Pattern("self._register.qubit_ids[int(Q_i)]")))
+    rep.check(ok, "MAP", "Sequence._check_qubits_give_ids|index-against-register-order", "indices resolve against register.qubit_ids", "index targeting no longer resolves against the register's qubit order", E.where(cq))
     sr = E.method(SEQ, "_set_register")
-    rep.check("seq._register = reg" in norm(sr.node) and "seq._qids = qids" in norm(sr.node), "MAP", "Sequence._set_register|register-and-ids-updated", "the built sequence gets the concrete register and its ids", "_set_register no longer updates both the register and the qubit-id set of the built sequence", E.where(sr))
+    stores = {l.target[2]: l.value for l in S(E, sr).logged("store") if l.target is not None and l.target[0] == "attr" and l.target[1] == ("name", "seq")}
+    ok = unobj(stores.get("_register", ("?",))) == ("name", "reg") and is_(unobj(stores.get("_qids", ("?",))), "set(reg.qubit_ids)") is not None
+    rep.check(ok, "MAP", "Sequence._set_register|register-and-ids-updated", "the built sequence gets the concrete register and its ids", f"_set_register no longer updates both the register and the qubit-id set of the built sequence (stores: { {k: sh(v, 40) for k, v in stores.items()} })", E.where(sr))
     rep.floor("MAP", 3)
     # "all qubits" of a phase shift without explicit targets are the register's qubits (the phase bookkeeping of a
     # mappable register still lists every reserved id after the register was resolved)
